@@ -26,6 +26,7 @@ CONSTANTS MaxDepth,      \* frames nested on the stack (top-level frame = 1)
           Targets,       \* subset of {"c","p"}: contract / precompile
           Errs,          \* subset of {"", "revert", "oog"}
           AspErrs,       \* subset of {"", "fail"}
+          TxAsp,         \* Aspect runs on each of the transaction-level join points (pre-tx before CaptureStart, post-tx after CaptureEnd)
           DevOffByOne,        \* CaptureExit indexes JoinPoints[len] (pinned: out of range)
           DevExitFirstOfType, \* CaptureAspectExit completes the FIRST join point entry of that type
           DevFlatFilterParent \* flat tracer's precompile filter looks at parent.Calls[len-1] whatever the filing
@@ -34,7 +35,7 @@ VARIABLES nodes,   \* Seq of [t: "frame"|"asp", kind, to, jp, err, open]
           under,   \* ghost: node -> issuing node (0 for the top frame)
           res,     \* ghost: asp node -> [err]
           stack,   \* generator: Seq of node ids currently open (frames and Aspect runs)
-          phase,   \* frame node -> "pre" | "body" | "post"
+          phase,   \* frame node -> "pretx" | "pre" | "body" | "post" | "posttx"   (the tx-level phases only for the top frame)
           evs,     \* the event stream
           cs,      \* impl: callstack of frame nodes
           marker,  \* impl: frame node -> "" | "pre" | "post"
@@ -61,22 +62,32 @@ Init ==
 
 Ev(e, n) == [e |-> e, n |-> n]
 
-\* CaptureTxStart + CaptureStart
-Start ==
+\* CaptureTxStart: the tracer's first call frame exists from construction; pre-tx Aspect runs are filed there
+TxStart ==
   /\ nodes = <<>> /\ ~done
   /\ nodes' = <<[t |-> "frame", kind |-> "CALL", to |-> "c", jp |-> "", err |-> "", open |-> TRUE]>>
-  /\ under' = <<0>> /\ stack' = <<1>> /\ phase' = Put(phase, 1, "pre")
-  /\ evs' = <<Ev("start", 1)>>
+  /\ under' = <<0>> /\ stack' = <<1>> /\ phase' = Put(phase, 1, "pretx")
+  /\ evs' = <<Ev("txstart", 1)>>
   /\ cs' = <<1>> /\ marker' = Put(marker, 1, "") /\ jps' = Put(jps, 1, <<>>) /\ iunder' = Put(iunder, 1, 0)
   /\ UNCHANGED <<res, ires, ifilt, crashed, done>>
+
+\* CaptureStart
+Start ==
+  /\ stack = <<1>> /\ phase[1] = "pretx" /\ ~crashed
+  /\ phase' = [phase EXCEPT ![1] = "pre"]
+  /\ evs' = Append(evs, Ev("start", 1))
+  /\ UNCHANGED <<nodes, under, res, stack, cs, marker, jps, iunder, ires, ifilt, crashed, done>>
 
 \* CaptureAspectEnter on the innermost frame
 AspEnter ==
   /\ stack # <<>> /\ ~crashed /\ IsFrame(Top) /\ Len(nodes) < MaxNodes
   /\ nodes[Top].to = "c" /\ nodes[Top].kind = "CALL"           \* only message calls that run code have join points
-  /\ \E jp \in {"pre", "post"} :
+  /\ \E jp \in {"pretx", "pre", "post", "posttx"} :
+       /\ (jp = "pretx" => Top = 1 /\ phase[1] = "pretx")
+       /\ (jp = "posttx" => Top = 1 /\ phase[1] = "posttx")
        /\ (jp = "pre" => phase[Top] = "pre")
-       /\ Cardinality(AspKids(Top, jp)) < MaxAsp
+       /\ (jp = "post" => phase[Top] \in {"pre", "body", "post"})
+       /\ Cardinality(AspKids(Top, jp)) < (IF jp \in {"pretx", "posttx"} THEN TxAsp ELSE MaxAsp)
        /\ LET a == Len(nodes) + 1 IN
           /\ nodes' = Append(nodes, [t |-> "asp", kind |-> "", to |-> "", jp |-> jp, err |-> "", open |-> TRUE])
           /\ under' = Append(under, Top)
@@ -112,7 +123,8 @@ Enter ==
   /\ IF IsFrame(Top)
      THEN /\ phase[Top] \in {"pre", "body"} /\ nodes[Top].to = "c"
           /\ Cardinality(FrameKids(Top)) < MaxWidth
-     ELSE Cardinality(FrameKids(Top)) < MaxAspCalls
+     ELSE /\ Cardinality(FrameKids(Top)) < MaxAspCalls
+          /\ nodes[Top].jp \in {"pre", "post"}     \* a call issued at transaction level would be announced by CaptureStart, not CaptureEnter
   /\ \E k \in Kinds, to \in Targets :
        /\ (to = "p" => k \in {"CALL", "STATICCALL", "DELEGATECALL"})
        /\ LET n == Len(nodes) + 1 IN
@@ -153,17 +165,25 @@ Exit ==
                   /\ crashed' = oob
   /\ UNCHANGED <<under, res, phase, marker, jps, ires, done>>
 
-\* CaptureEnd + CaptureTxEnd
+\* CaptureEnd
 End ==
-  /\ Len(stack) = 1 /\ ~crashed /\ IsFrame(Top)
+  /\ Len(stack) = 1 /\ ~crashed /\ IsFrame(Top) /\ phase[1] \in {"pre", "body", "post"}
   /\ \E e \in Errs :
-       /\ nodes' = [nodes EXCEPT ![1].err = e, ![1].open = FALSE]
-       /\ stack' = <<>> /\ cs' = <<>>
+       /\ nodes' = [nodes EXCEPT ![1].err = e]
+       /\ phase' = [phase EXCEPT ![1] = "posttx"]
        /\ evs' = Append(evs, [e |-> "end", n |-> 1])
-       /\ done' = TRUE
+  /\ UNCHANGED <<under, res, stack, cs, marker, jps, iunder, ires, ifilt, crashed, done>>
+
+\* CaptureTxEnd
+TxEnd ==
+  /\ stack = <<1>> /\ ~crashed /\ phase[1] = "posttx"
+  /\ nodes' = [nodes EXCEPT ![1].open = FALSE]
+  /\ stack' = <<>> /\ cs' = <<>>
+  /\ evs' = Append(evs, [e |-> "txend", n |-> 1])
+  /\ done' = TRUE
   /\ UNCHANGED <<under, res, phase, marker, jps, iunder, ires, ifilt, crashed>>
 
-Next == Start \/ AspEnter \/ AspExit \/ Enter \/ Exit \/ End
+Next == TxStart \/ Start \/ AspEnter \/ AspExit \/ Enter \/ Exit \/ End \/ TxEnd
 Spec == Init /\ [][Next]_vars
 
 ---------------------------------------------------------------------------
@@ -183,8 +203,8 @@ TypeOK == Len(nodes) <= MaxNodes /\ Len(stack) <= 2 * MaxDepth + 1
 (* expected outputs: nested tree (as child lists) and the flat list with trace addresses *)
 
 AscSeq(S) == LET RECURSIVE f(_) f(T) == IF T = {} THEN <<>> ELSE LET x == CHOOSE y \in T : \A z \in T : y <= z IN <<x>> \o f(T \ {x}) IN f(S)
-PreOf(n) == AscSeq(AspKids(n, "pre"))
-PostOf(n) == AscSeq(AspKids(n, "post"))
+PreOf(n) == AscSeq(AspKids(n, "pretx") \cup AspKids(n, "pre"))
+PostOf(n) == AscSeq(AspKids(n, "post") \cup AspKids(n, "posttx"))
 CallsOf(n, filter) == AscSeq({m \in FrameKids(n) : ~(filter /\ nodes[m].to = "p" /\ nodes[m].kind \in {"CALL", "STATICCALL"})})
 
 RECURSIVE Flat(_, _, _), FlatList(_, _, _, _)
